@@ -94,6 +94,15 @@ def programs(tier):
         yield mk(f"gate-derived {op2} +second-result", base + [D("q", B("-", V("bb"), I(1)))], ["r", "q"])
         yield mk(f"gate-derived {op2} +sel-result", base + [D("q", B("+", ("sel", V("p"), "signal-Y"), I(1)), "Signal")], ["r", "q"])
     yield mk("gate-src-on-member", [DECL_BB, D("r", ("cond", sel, V("bb")))], ["r"])
+    # a gating whose gated bundle is itself a gating / a filter (the inner decider outputs signal-everything / each)
+    yield mk("gate-of-gate", [DECL_BB, D("g1", ("cond", B(">", V("s"), I(0)), V("bb"))), D("r", ("cond", B(">", V("u"), I(1)), V("g1")))],
+             ["r"], {"s": [0, 1, -2], "u": [0, 2, 5]})
+    yield mk("gate-of-gate same-cond-signal", [DECL_BB, D("g1", ("cond", B(">", V("s"), I(0)), V("bb"))), D("r", ("cond", B("<", V("s"), I(2)), V("g1")))],
+             ["r"], {"s": [0, 1, 2, -2]})
+    yield mk("gate-of-filter", [DECL_BB, D("g1", ("cond", B(">", V("bb"), I(1)), V("bb"))), D("r", ("cond", B(">", V("s"), I(0)), V("g1")))],
+             ["r"], {"s": [0, 1, -2]})
+    yield mk("gate-of-gate +inner-exposed", [DECL_BB, D("g1", ("cond", B(">", V("s"), I(0)), V("bb"))), D("r", ("cond", B(">", V("u"), I(1)), V("g1"))),
+                                            D("q", B("*", V("g1"), I(3)))], ["r", "q"], {"s": [0, 1], "u": [0, 2]})
     # constant-expression operands and members
     yield mk("each-const-expr", [DECL_BB, D("r", B("*", V("bb"), ("paren", B("+", I(1), I(1)))))], ["r"])
     yield mk("lit-const-expr-member", [D("r", ("bundle", [("lit", "signal-X", B("+", I(1), I(2))), V("y")]))], ["r"])
